@@ -616,6 +616,22 @@ func fieldsIn(v ssa.Value, out map[string]bool, seen map[ssa.Value]bool) {
 	if !ok {
 		return
 	}
+	// the result of a helper of the module (`nd.breaksRun(i, run)`): what its conditions and results are computed from
+	if c, ok := v.(*ssa.Call); ok {
+		if h := c.Common().StaticCallee(); h != nil && h.Blocks != nil && InModule(h) && !seen[h] {
+			seen[h] = true
+			eachInstr(h, func(_ *ssa.BasicBlock, _ int, hi ssa.Instruction) {
+				switch x := hi.(type) {
+				case *ssa.If:
+					fieldsIn(x.Cond, out, seen)
+				case *ssa.Return:
+					for _, rv := range x.Results {
+						fieldsIn(rv, out, seen)
+					}
+				}
+			})
+		}
+	}
 	var ops [16]*ssa.Value
 	for _, op := range ins.Operands(ops[:0]) {
 		if op != nil && *op != nil {
@@ -1985,6 +2001,32 @@ func checkContiguousIgnoresUnitAxes(p *Program, r *Report) {
 						idx   ssa.Value
 					}{nm, idx})
 				}
+				// a helper method of the struct that is handed the axis and reads its stride there
+				// (`nd.breaksRun(i, run)`): a read of that field at the argument, made where the helper is called
+				if c, ok := x.(*ssa.Call); ok {
+					if h := c.Common().StaticCallee(); h != nil && h.Blocks != nil && fnPkg(h) == fnPkg(fn) && h != fn && len(h.Params) == len(c.Common().Args) {
+						eachInstr(h, func(_ *ssa.BasicBlock, _ int, hi ssa.Instruction) {
+							ld, ok := hi.(*ssa.UnOp)
+							if !ok {
+								return
+							}
+							nm, idx := elemOf(ld)
+							if nm != "Step" && nm != "Offset" && nm != "OffsetStep" {
+								return
+							}
+							if prm, isP := origin1OrSelf(idx).(*ssa.Parameter); isP {
+								for k2, q := range h.Params {
+									if q == prm {
+										reads = append(reads, struct {
+											field string
+											idx   ssa.Value
+										}{nm, c.Common().Args[k2]})
+									}
+								}
+							}
+						})
+					}
+				}
 				return false
 			}, map[ssa.Value]bool{})
 			for _, rd := range reads {
@@ -2257,6 +2299,31 @@ func checkContiguousCoversAllAxes(p *Program, r *Report) {
 								idx = ia.Index
 							}
 						}
+					}
+				}
+				// the test may sit in a helper method of the struct that is handed the axis (`nd.breaksRun(i, run)`)
+				if c, ok := x.(*ssa.Call); ok {
+					if h := c.Common().StaticCallee(); h != nil && h.Blocks != nil && fnPkg(h) == fnPkg(fn) && len(h.Params) == len(c.Common().Args) {
+						eachInstr(h, func(_ *ssa.BasicBlock, _ int, hi ssa.Instruction) {
+							ia, ok := hi.(*ssa.IndexAddr)
+							if !ok {
+								return
+							}
+							for _, o := range origins(ia.X) {
+								if o == nil {
+									continue
+								}
+								if nm, _, ok := loadedField(o); ok && nm == "Step" {
+									if prm, isP := origin1OrSelf(ia.Index).(*ssa.Parameter); isP {
+										for k, q := range h.Params {
+											if q == prm {
+												idx = c.Common().Args[k]
+											}
+										}
+									}
+								}
+							}
+						})
 					}
 				}
 				return false
